@@ -1137,6 +1137,13 @@ int main(int argc, char** argv)
 		static volatile long dummy[64];
 		g_cur = dummy;
 		warmup(jb.sc, tier);
+		{
+			Plan pp;
+			SchedCfg pc;
+			derive(jb.sc, jb.idx, tier, pp, pc);
+			printf("plan: %s\n", planBrief(pp, 3000).c_str());
+			fflush(stdout);
+		}
 		executeJob(jb.sc, jb.idx, tier, res, plan, cfg, pf);
 		printf("job %ld scenario %s idx %llu strategy %s steps %llu switches %llu hash %016llx\nplan: %s\n", opt.oneJob, jb.sc->name, (unsigned long long)jb.idx,
 		       stratName(cfg).c_str(), (unsigned long long)res.steps, (unsigned long long)res.switches, (unsigned long long)res.hash, planBrief(plan, 3000).c_str());
